@@ -231,6 +231,12 @@ def lowdim_unions(tier):
             U(Pt([0.3, 0.4]), Pt([aff(2.0, t=1), -0.5])), U(B(S2), B(M_TET))]
 
 
+def mesh_extras(tier):
+    """a large polyhedron built with a user tolerance"""
+    big = M("tetra_big")
+    return [big, B(big)]
+
+
 def default_exprs(tier):
     """shape functions that DECLARE a default for a variable which the parameter rows nevertheless supply (with other
     values): the supplied value wins, row by row.  Kept out of solids(): `necessary_variables` of such a domain does
